@@ -155,6 +155,8 @@ def run(ck):
             ls = list(np.cumsum([rng.uniform(0.05, 2) for _ in ps]))          # increasing
         else:
             ls = [rng.uniform(0.0, 5) for _ in ps]                            # arbitrary non-negative
+        if rng.random() < 0.2:
+            ls[0] = 0.0                                                       # nothing adsorbed yet at the first (positive) pressure
         des = [(ps[-1] * rng.uniform(0.2, 0.9), ls[-1] * 1.2), (ps[0] * 0.5, ls[0] * 1.5)] if rng.random() < 0.5 else []
         origin = rng.random() < 0.25          # a measured origin (0, 0) in front of the adsorption data
         data = pd.DataFrame({"pressure": ([0.0] if origin else []) + ps + [d[0] for d in des], "loading": ([0.0] if origin else []) + ls + [d[1] for d in des]})
@@ -269,6 +271,25 @@ def run(ck):
                 if isinstance(alt, tuple) or relerr(alt, base) > 1e-10:
                     ck.fail_case({"class": "ModelIsotherm", "clause": "mode arguments converted first", "mode": mode,
                                   "outcome": alt[1] if isinstance(alt, tuple) else "number"}, {"params": par, "native": base, "relative%": alt})
+    # the same across pressure MODES for isotherms stored in °C (the saturation pressure must be taken at the kelvin temperature)
+    for name in ("Langmuir", "Toth"):
+        par = sample_params(name, rng)
+        par["K"] = rng.uniform(0.5, 5)
+        for ads_name, t_c in (("N2", -195.795), ("CO2", -20.0), ("C3H8", 25.0)):
+            try:
+                psat = pg.Adsorbate.find(ads_name).saturation_pressure(t_c + 273.15, unit="bar")
+                miso = pg.ModelIsotherm(material="pgv_m", adsorbate=ads_name, temperature=t_c, temperature_unit="°C", model=make(pg, name, par), pressure_mode="absolute",
+                                        pressure_unit="bar", loading_basis="molar", loading_unit="mmol", material_basis="mass", material_unit="g")
+                rel = 0.37
+                base = float(miso.model.spreading_pressure(np.float64(rel * psat)))
+                alt = float(miso.spreading_pressure_at(rel, pressure_mode="relative"))
+                alt2 = float(miso.spreading_pressure_at(rel * 100, pressure_mode="relative%"))
+            except Exception as e:  # noqa
+                alt, alt2, base = ("err", err_class(e)), None, None
+            ck.count(("miso-celsius", name, ads_name), bucket="model-isotherm:°C mode arguments")
+            if isinstance(alt, tuple) or relerr(alt, base) > 1e-9 or relerr(alt2, base) > 1e-9:
+                ck.fail_case({"class": "ModelIsotherm", "clause": "mode arguments converted first", "mode": "absolute", "temperature_unit": "°C",
+                              "outcome": alt[1] if isinstance(alt, tuple) else "number"}, {"params": par, "adsorbate": ads_name, "t_celsius": t_c, "bare_at_converted_pressure": base, "relative": alt, "relative%": alt2})
     ck.cov["correspondence_disagreements"] = n_dis
     ck.cov["rule"] = ("closed-form Float copies vs Python; 13 models x seeded parameter vectors x pressures: Π vs composite Gauss-Legendre (log substitution) "
                       "of the class's own loading/x, differences, zero; point isotherms: seeded increasing pressure grids (2-14 points, optional desorption branch) x "
